@@ -242,7 +242,26 @@ fn free_jitter() {
 }
 
 /// A scheduling point.
+thread_local! { static MARKED: std::cell::Cell<bool> = const { std::cell::Cell::new(false) }; }
+static MARK_SEEN: AtomicBool = AtomicBool::new(false);
+
+/// While a thread is marked, the first scheduling point it reaches *inside a10*
+/// (ids below 100) sets a flag other threads can wait for: "the marked call has
+/// really started".
+pub fn mark_thread(on: bool) {
+    MARKED.with(|m| m.set(on));
+}
+pub fn mark_reset() {
+    MARK_SEEN.store(false, Ordering::SeqCst);
+}
+pub fn mark_seen() -> bool {
+    MARK_SEEN.load(Ordering::SeqCst)
+}
+
 pub fn point(id: u32) {
+    if id < 100 && MARKED.with(|m| m.get()) {
+        MARK_SEEN.store(true, Ordering::SeqCst);
+    }
     if !ACTIVE.load(Ordering::Relaxed) {
         if FREE_MODE.load(Ordering::Relaxed) {
             free_jitter();
@@ -275,8 +294,31 @@ pub fn point(id: u32) {
 }
 
 /// The calling thread could not take a lock.
+/// Called when a thread has been spinning on a lock for so long that the
+/// holder must be gone (natively a use-after-free shows up like this: the lock
+/// word is the poison pattern of the quarantined block). The hook reports what
+/// the monitors know; the process ends afterwards.
+pub static ON_STALL: std::sync::Mutex<Option<Box<dyn Fn(usize) + Send>>> = std::sync::Mutex::new(None);
+
+fn stalled(addr: usize) {
+    thread_local! { static SPINS: std::cell::Cell<u64> = const { std::cell::Cell::new(0) }; }
+    let n = SPINS.with(|s| {
+        s.set(s.get() + 1);
+        s.get()
+    });
+    if n == 3_000_000 {
+        let _m = MonGuard::new();
+        if let Some(h) = ON_STALL.lock().unwrap_or_else(|e| e.into_inner()).take() {
+            h(addr);
+            eprintln!("HARNESS-STALL a thread spun on a lock 3000000 times after the schedule was cut off");
+            std::process::exit(6);
+        }
+    }
+}
+
 pub fn lock_blocked(_addr: usize) {
     if !ACTIVE.load(Ordering::Relaxed) {
+        stalled(_addr);
         std::thread::yield_now();
         return;
     }
@@ -286,6 +328,7 @@ pub fn lock_blocked(_addr: usize) {
     let st = g.as_mut().unwrap();
     if st.free_run {
         drop(g);
+        stalled(_addr);
         std::thread::yield_now();
         return;
     }
